@@ -254,6 +254,12 @@ Fixpoint can_flush (w : shape) : bool :=
   | Shape fe fl u => fe || fl || match u with Some w' => can_flush w' | None => false end
   end.
 
+(* the layers of the Unwrap chain, outermost first: (has FlushError, has Flush) *)
+Fixpoint chain (w : shape) : list (bool * bool) :=
+  match w with
+  | Shape fe fl u => (fe, fl) :: match u with Some w' => chain w' | None => [] end
+  end.
+
 (* the request's Last-Event-ID: the first value when present, non-empty and a single line *)
 Definition expected_lei (h : list bytes) : field :=
   match h with
